@@ -67,9 +67,9 @@ def generate(seed, tier):
             swing = 10 ** rng.uniform(-3, -2)
             a = rng.choice([0.0, -swing / 2])
             alpha = 10 ** rng.uniform(-3, -2.5)
-        nsl = rng.choice([64, 96, 128])
+        nsl = rng.choice([64, 96, 128, 65, 127, 255])
         if rng.random() < 0.05:
-            nsl = rng.choice([256, 512, 1000])
+            nsl = rng.choice([256, 512, 1000, 511])
         if tier == "thorough" and rng.random() < 0.004:
             nsl = 4300                                    # longer than GET_EYE's default nslots=4096: truncation path
         ops.append({"op": "case", "sps": sps, "R": rng.choice([1e9, 10e9, 2.5e9]), "nslots": nsl,
@@ -212,6 +212,10 @@ class Bench:
             iv = v["i"]
             if int(iv) != iv or not (0 <= iv < sps):
                 raise Violation("C17/index", f"{w}: sampling index i={iv!r} is not an integer in [0, {sps})", "index")
+            # the caller owns the returned eye object: writing into its arrays must not influence later estimates
+            for name_, val_ in list(e.__dict__.items()):
+                if isinstance(val_, np.ndarray) and val_.flags.writeable and val_.size:
+                    val_[...] = 12345.0
             # ---- twin on alpha*y+beta under the same clustering seed -----------------------------
             try:
                 e2 = self._estimate(alpha * clean + beta, alpha * noise, op["form"], seed)
